@@ -516,6 +516,9 @@ func generateMore(suite string, seed uint64, i int, r *rng, id string, g gp) *Ca
 		if r.chance(1, 8) { // the same drawing in a tiny or huge unit (exact: a power of two): widths around 1e-10, 1e-7 or 1e11
 			cfg = scaleCfg(cfg, []int{-40, -30, -30, 30}[r.intn(4)])
 		}
+		if r.chance(1, 8) { // OrderingNoop: LayerPos stays 0 everywhere, long edges are not cut; the bands must still be packed exactly
+			cfg.P3 = 1
+		}
 		if r.chance(1, 25) { // a single node with a self-loop whose size entry also carries X and Y (as a Size kept from an earlier layout does)
 			edges = [][]string{{"solo", "solo"}}
 			cfg.Sizes = map[string][]string{"solo": {fs(float64(1 + r.intn(80))), fs(float64(1 + r.intn(40))), fs(float64(1 + r.intn(50))), fs(float64(1 + r.intn(50)))}}
